@@ -60,6 +60,40 @@ def tamper_walk(w, tier, rng, o, goal, size, p_id):
     return cid
 
 
+def extend_window(w, goal):
+    """while the circuit is being extended (the owner knows only its first hop) an outsider sends the first hop, on the id
+    of the link behind it, unencrypted cells that do not carry the plaintext flag: the relay wraps them on the way back.
+    The owner must deliver nothing of it."""
+    w.create_circuit("o", goal)
+    held = None
+    for _ in range(30):
+        if not w.net.inflight:
+            break
+        d = w.net.inflight[0]
+        desc = w.describe(d)
+        if desc["dst"] == "o" and not desc["plain"]:
+            held = d                     # the extended answer: held back, the owner stays in the window
+            break
+        w.deliver(d.seq)
+    back = [r["cid"] for r in w.project()["relay"]["r1"] if r["dir"] == "B"]
+    for c in back:
+        for mt in ("data", "ping"):
+            w.adv_plain("adv", "r1", c, mt)
+            seq = w.net.inflight[-1].seq
+            w.tamper_header(seq, "plain")
+            for x in [x for x in w.net.inflight if held is None or x.seq != held.seq]:
+                w.deliver(x.seq)
+            for x in [x for x in w.net.inflight if held is None or x.seq != held.seq]:
+                w.deliver(x.seq)
+    while w.net.inflight:
+        w.deliver(w.net.inflight[0].seq)
+    for c in list(w.ov["o"].circuits.values()):
+        if c.state == "READY":
+            w.send_data("o", w.cid(c.circuit_id), 1)
+    while w.net.inflight:
+        w.deliver(w.net.inflight[0].seq)
+
+
 def dual_stack_walk(w, goal):
     """dual-stack hosts (a DispatcherEndpoint over an IPv4 and an IPv6 interface, as ipv8_service builds them): once a
     circuit carries data, fabricated cells - unencrypted, for every id in use, of both kinds - arrive at every node on
@@ -159,9 +193,13 @@ def run(tier, seed, replay=None):
                         "rendezvous link and the shared end-to-end key are set up by the harness on the real tables (the "
                         "create-e2e/link-e2e handshake is not driven); test-request cells are not driven", "payload sizes {0, 1, 100, 900} (+1400 thorough), not all 0..MTU"]
     rng = random.Random(seed)
-    bg = K.Background(["Onion_c04_g3.cfg", "Onion_c04_e2e_q.cfg"] + (["Onion_c04_g12.cfg", "Onion_c04_e2e.cfg"] if tier == "thorough" else []),
+    bg = K.Background(["Onion_c04_g3.cfg", "Onion_c04_e2e_q.cfg", "Onion_c04_window_q.cfg"] +
+                      (["Onion_c04_g12.cfg", "Onion_c04_e2e.cfg"] if tier == "thorough" else []),
                       [("Onion_c04_noaead.cfg", "ExitIntegrity",
-                        "spec without AEAD authentication delivers altered data (ExitIntegrity violated)")])
+                        "spec without AEAD authentication delivers altered data (ExitIntegrity violated)"),
+                       ("Onion_c04_nodataguard_q.cfg", "ReturnIntegrity",
+                        "spec in which the owner of a circuit that is still being extended takes data from it (the code before "
+                        "the fix) delivers an outsider's unencrypted cell that the relay wrapped (ReturnIntegrity violated)")])
     nseeds = 4 if tier == "quick" else 20
     steps = 160 if tier == "quick" else 400
     base = seed * 1000
@@ -222,6 +260,18 @@ def run(tier, seed, replay=None):
         finally:
             w.close()
     K.validate_family(ctx, PID, dual, "line4", hdr_d, "dual-stack", NONTRIVIAL)
+    win = []
+    for goal in (2, 3):
+        w = R.world("line4", seed * 100 + 97 + goal)
+        try:
+            gone = K.guarded(w, extend_window, w, goal)
+            trw = {"events": w.events, "topology": "line4", "seed": seed, "profile": "extend-window g%d" % goal, "aborted": gone}
+            K.check_escapes(ctx, w, trw, "extend-window")
+            win.append(trw)
+            hdr_w = w.header()
+        finally:
+            w.close()
+    K.validate_family(ctx, PID, win, "line4", hdr_w, "extend-window", NONTRIVIAL | {"AdvPlain"})
     # what comes back from outside may itself look like a data message of the tunnel community for any circuit id
     w = R.world("line4", seed * 100 + 95)
     try:
